@@ -60,6 +60,7 @@ def check(ctx):
     ctx.rule('C14.H4', 'every placement-new fits its buffer')
     ctx.rule('C14.H5', 'handle index and list slot come from the same PrototypeInfo')
     ctx.rule('C14.M', 'no use-after-move in heterogeneous dispatch / enqueue')
+    ctx.rule('C14.F', 'heterogeneous dispatcher: lookup and listener management map onto the per-event heterogeneous list; list-level remove / empty / forEach route by handle index')
     ctx.rule('C14.Q', 'heterogeneous queue: slot protocol and FIFO positions (exactly once, in place)')
     ctx.rule('C14.V', 'dispatch hands the caller\'s value categories on to the prototype selection')
     from .c05 import run_slot_rules
@@ -67,6 +68,9 @@ def check(ctx):
         info = TUInfo(tu)
         run_slot_rules(ctx, 'C14.Q', 'C14.Q', tu, only_kinds=('O-', 'P-'), classes=('HeterEventQueueBase',))
         check_value_categories(ctx, tu)
+        from .c04 import check_listener_management
+        check_listener_management(ctx, tu, 'HeterEventDispatcherBase', 'C14.F')
+        check_heter_list_ops(ctx, tu, info)
         check_h2(ctx, tu, info)
         check_h3(ctx, tu, info)
         check_h4(ctx, tu, 'C14.H4', ('BufferedUnion', 'BufferedItem'))
@@ -85,6 +89,7 @@ def check(ctx):
     ctx.require_min('C14.H5', 3)
     ctx.require_min('C14.M', 5)
     ctx.require_min('C14.Q', 4)
+    ctx.require_min('C14.F', 6)
     ctx.require_min('C14.V', 2)
     gen = os.path.join(extract.VERIF, 'witness', 's_heter_gen.cpp')
     if not os.path.exists(gen):
@@ -129,6 +134,50 @@ def check_value_categories(ctx, tu):
                 ctx.ob('C14.V', f, 'every forwarding-reference parameter is passed on with its own value category', not bad,
                        detail='%s at %s: the prototype is then selected for different argument types than the caller supplied'
                               % ('; '.join(bad), f.nloc(n)), where=f.nloc(n), key_detail='value category')
+
+
+def check_heter_list_ops(ctx, tu, info):
+    for f in tu.fns_named('HeterCallbackListBase::remove'):
+        subs = [n for n, o in f.nodes.items() if o['cls'] == 'CXXOperatorCallExpr' and o.get('op') == '[]' and 'callbackListList' in fields_in(path(f, o['args'][0]))]
+        ok = len(subs) == 1
+        if ok:
+            ip = path(f, f.strip_all_casts(f.nodes[subs[0]]['args'][1]))
+            ok = root_var_id(ip) == f.params[0]['id'] and last_field(ip) == 'index'
+        rm = [n for n in f.calls() if (f.callee(n) or {}).get('name') == 'doRemove']
+        ok = ok and len(rm) == 1 and root_var_id(path(f, f.call_args(rm[0])[0])) == f.params[0]['id']
+        ctx.ob('C14.F', f, 'remove goes to the per-prototype list named by the handle\'s index, with the same handle', ok)
+    for f in tu.fns_named('HeterCallbackListBase::HomoCallbackListType::doRemove'):
+        rm = [n for n in f.calls() if (f.callee_key(n) or '') == 'CallbackListBase::remove']
+        lk = [n for n in f.calls() if (f.callee(n) or {}).get('name') == 'lock' and f.call_obj(n) and last_field(path(f, f.call_obj(n))) == 'homoHandle']
+        ok = len(rm) == 1 and len(lk) == 1 and (f.nodes[rm[0]].get('obj') is None or path(f, f.nodes[rm[0]]['obj']) == ('this',))
+        ctx.ob('C14.F', f, 'doRemove removes the node the heterogeneous handle refers to from this list', ok)
+    for f in tu.fns_named('HeterCallbackListBase::empty'):
+        em = [n for n in f.calls() if (f.callee(n) or {}).get('name') == 'empty' and f.callee(n).get('virt')]
+        loops = [b for b in f.blocks if f.block_reaches(b, b)]
+        try:
+            # returns false as soon as one per-prototype list is non-empty, true after the walk
+            rets = f.return_nodes()
+            vals = sorted(str(f.nodes[f.strip_all_casts(f.kids(r)[0])].get('value')) for r in rets)
+            ok = len(em) == 1 and bool(loops) and vals == ['False', 'True']
+        except Exception:
+            ok = False
+        ctx.ob('C14.F', f, 'empty() asks every per-prototype list', ok)
+    for nm in ('forEach', 'forEachIf'):
+        for f in tu.fns_named('HeterCallbackListBase::' + nm):
+            calls = [n for n in f.calls() if (f.callee_key(n) or '') == 'CallbackListBase::' + nm]
+            gets = [n for n in f.calls() if (f.callee_key(n) or '') == 'HeterCallbackListBase::doGetCallbackList']
+            ctx.ob('C14.F', f, '%s<Prototype> walks exactly the list of that prototype' % nm, len(calls) == 1 and len(gets) == 1)
+    for f in tu.fns_named('HeterCallbackListBase::doForEachInvoke'):
+        # Handle{PrototypeIndex, handle}: the index given to the visitor is the template argument of this instantiation
+        inits = [n for n, o in f.nodes.items() if o['cls'] == 'InitListExpr' and 'HeterHandle_' in tu.tstr(o.get('t'))]
+        ta = f.d.get('targs') or []
+        want = ta[1].get('int') if len(ta) > 1 and isinstance(ta[1], dict) else None
+        if not inits:
+            continue
+        k0 = f.strip_all_casts(f.kids(inits[0])[0])
+        got = f.nodes[k0].get('cv', f.nodes[k0].get('value'))
+        ctx.ob('C14.F', f, 'the handle given to a visitor carries the index of the visited prototype', want is not None and got == want,
+               detail='index %s, expected %s' % (got, want))
 
 
 def check_h2(ctx, tu, info):
